@@ -121,11 +121,15 @@ class C01Monitor:
                 A_new, f_new = o.orientations[-1], o.fractions[-1]
                 for clause, d in snapshot_checks(A_new, f_new, n, mrec.completed, mrec.strain):
                     if clause == "_margin":
-                        if mrec.diffusion_strain == 0.0:
+                        if mrec.diffusion_strain == 0.0 and mrec.rotation <= 6.0:
                             self.max_ratio = max(self.max_ratio, d["ratio"])
+                        elif mrec.diffusion_strain == 0.0:
+                            self.max_ratio_large_rotation = max(
+                                getattr(self, "max_ratio_large_rotation", 0.0), d["ratio"])
                         continue
                     d = dict(d)
                     d["diffusion_strain"] = mrec.diffusion_strain
+                    d["rigid_rotation_total_rad"] = mrec.rotation
                     self.v(clause, i, mrec.idx, d)
                 self.n_snap_checked += 1
                 # the new snapshot must not alias an earlier one
